@@ -17,6 +17,9 @@ EXTENDS Unparse, Json
 CONSTANT MaxNest
 
 Faults == { [n |-> "fail", e |-> Call("fail", <<IntL(1)>>)],
+            \* ... whose last result is declared as a concrete error type / as interface{} (a value that IS an error fails the render)
+            [n |-> "failc", e |-> Call("failc", <<IntL(1)>>)],
+            [n |-> "faili", e |-> Call("faili", <<IntL(1)>>)],
             [n |-> "div0", e |-> Par(Bin("/", IntL(1), IntL(0)))],
             [n |-> "nofunc", e |-> Call("nosuch", <<IntL(1)>>)],
             [n |-> "range", e |-> Idx(Id("xs"), IntL(5))],
@@ -119,7 +122,7 @@ BlockECs == {"cond", "elifcond", "iter"}
 \* `for (v) in !f(x) { ...` hands the loop's block to the call f(x): only a call that is the whole
 \* iterable may be followed by the loop body
 RECURSIVE EndsInCall(_)
-EndsInCall(cs) == IF cs = <<>> THEN fault.n \in {"fail", "nofunc", "failchain", "failmeth", "failmethchain"}
+EndsInCall(cs) == IF cs = <<>> THEN fault.n \in {"fail", "failc", "faili", "nofunc", "failchain", "failmeth", "failmethchain"}
                   ELSE IF Head(cs).k = "not" THEN EndsInCall(Tail(cs))
                   ELSE Head(cs).k \in {"argGo", "argP", "argUser", "argVar0", "argVar1"}
 IterOK(cs) == IF cs = <<>> THEN TRUE ELSE IF Head(cs).k = "not" THEN ~EndsInCall(cs) ELSE TRUE
